@@ -440,7 +440,7 @@ func runC05(cfg Config, r *Result) {
 		"unreachable code after return/break, break outside a loop, value returned from a handler/procedure, stray text after a statement, stray text after `end`) " +
 		"x applicable positions (statement boundaries at every block nesting: top level, if/else, while, for, func, on; quick: 2 random positions per rule and program, thorough: all); " +
 		"one rule-breaking edit per mutant; every mutant is non-trivial; distinct = distinct mutant text"
-	bin, cleanup, err := buildEvy()
+	bin, cleanup, err := fmBuildEvy()
 	if err != nil {
 		r.Violate(Violation{Kind: "correspondence", Key: "evy-binary-build", Detail: err.Error()})
 	} else {
